@@ -84,6 +84,10 @@ def perturbation(seed, index):
         'env_extra': 0 if index == 0 else rng.randrange(0, 1 << len(ENV_EXTRA)),
         'stdio': 'pipe' if index == 0 else rng.choice(['pipe', 'file', 'null', 'tty']),
         'input_link': True if index == 0 else rng.random() < 0.6,
+        # file-system facts about input and output that are not content: modification times of the input files (only
+        # when the input is a copy), the output directory being a symbolic link
+        'input_mtimes': 0 if index == 0 else rng.randrange(0, 1 << 30),
+        'out_link': index != 0 and rng.random() < 0.3,
     }
 
 
@@ -98,7 +102,11 @@ def compile_once(repo, src, workdir, cfg, pert, _prior=False):
     if pert.get('prior_other') and not _prior:
         # history fault: first compile the decoy source (same names, other contents) here, then remove its outputs
         compile_once(repo, src + '-decoy', workdir, cfg, dict(pert, stale_outputs=False), _prior=True)
-        shutil.rmtree(os.path.join(cwd, 'out'), ignore_errors=True)
+        if os.path.islink(os.path.join(cwd, 'out')):
+            shutil.rmtree(os.path.join(cwd, 'out.real'), ignore_errors=True)
+            os.makedirs(os.path.join(cwd, 'out.real'), exist_ok=True)
+        else:
+            shutil.rmtree(os.path.join(cwd, 'out'), ignore_errors=True)
         if os.path.islink(os.path.join(cwd, 'in')):
             os.unlink(os.path.join(cwd, 'in'))
         else:
@@ -108,7 +116,15 @@ def compile_once(repo, src, workdir, cfg, pert, _prior=False):
             os.symlink(src, os.path.join(cwd, 'in'))
         else:
             shutil.copytree(src, os.path.join(cwd, 'in'))
+            if pert.get('input_mtimes'):
+                r2 = random.Random(pert['input_mtimes'])
+                for name in sorted(os.listdir(os.path.join(cwd, 'in'))):
+                    t = r2.uniform(1.0e9, 1.7e9)
+                    os.utime(os.path.join(cwd, 'in', name), (t, t))
     out = os.path.join(cwd, 'out')
+    if pert.get('out_link') and not os.path.lexists(out):
+        os.makedirs(os.path.join(cwd, 'out.real'), exist_ok=True)
+        os.symlink('out.real', out)
     os.makedirs(out, exist_ok=True)
     if pert.get('stale_outputs'):
         for name in ('zone_infos.h', 'zone_infos.cpp', 'zone_infos.py', 'zone_policies.h', 'zone_policies.py',
@@ -311,7 +327,7 @@ def run(prop, tier, verif_seed):
     exit_code = 0
     stats = {'compilations': 0, 'files_compared': 0, 'bytes_compared': 0, 'reason_lines_canonicalised': 0,
              'raw_byte_differences_excused': 0}
-    fault_counts = {'env_extra_variables': 0, 'stdio_not_a_pipe': 0, 'input_dir_not_a_symlink': 0, 'prior_compile_of_other_source': 0, 'home_user_host_changed': 0, 'stale_outputs_present': 0, 'hashseed_changed': 0, 'clock_jumping': 0, 'listing_shuffled': 0, 'tz_changed': 0,
+    fault_counts = {'input_mtimes_changed': 0, 'output_dir_is_symlink': 0, 'env_extra_variables': 0, 'stdio_not_a_pipe': 0, 'input_dir_not_a_symlink': 0, 'prior_compile_of_other_source': 0, 'home_user_host_changed': 0, 'stale_outputs_present': 0, 'hashseed_changed': 0, 'clock_jumping': 0, 'listing_shuffled': 0, 'tz_changed': 0,
                     'locale_changed': 0, 'cwd_depth_changed': 0, 'umask_changed': 0}
     samples = []
     distinct = set()
@@ -347,6 +363,10 @@ def run(prop, tier, verif_seed):
                 fault_counts['stdio_not_a_pipe'] += 1
             if not p.get('input_link', True):
                 fault_counts['input_dir_not_a_symlink'] += 1
+                if p.get('input_mtimes'):
+                    fault_counts['input_mtimes_changed'] += 1
+            if p.get('out_link'):
+                fault_counts['output_dir_is_symlink'] += 1
             if p['hashseed'] != 0:
                 fault_counts['hashseed_changed'] += 1
             if p['shim']:
@@ -438,7 +458,7 @@ def minimise_perturbation(repo, src, root, cfg, ref, pert, base):
     outputs still differ."""
     cur = dict(pert)
     n = [0]
-    for dim in ('shim', 'stale_outputs', 'prior_other', 'env_extra', 'stdio', 'input_link', 'home_user', 'tz', 'lang', 'umask', 'cwd_depth', 'hashseed'):
+    for dim in ('shim', 'stale_outputs', 'prior_other', 'env_extra', 'stdio', 'input_link', 'input_mtimes', 'out_link', 'home_user', 'tz', 'lang', 'umask', 'cwd_depth', 'hashseed'):
         trial = dict(cur)
         trial[dim] = base[dim]
         if trial == cur:
